@@ -35,6 +35,7 @@ var (
 	fN        = flag.Int("sim.n", 100, "number of seeds (digest mode)")
 	fReplays  = flag.String("sim.replaydir", "", "directory for replay files")
 	fBig      = flag.Bool("sim.big", false, "thorough tier: larger populations (one more client, twice the requests per client, one more generation)")
+	fFine     = flag.String("sim.finesites", "", "fine-grained mode: list of the instrumented sites of this binary (json)")
 	fDump     = flag.Bool("sim.dump", false, "digest mode: print the event logs too")
 	fDigest   = flag.Bool("sim.digest", false, "print one event-log digest per seed instead of checking (determinism self-test)")
 )
@@ -275,6 +276,7 @@ func sampleOf(in *Input, res *Result) any {
 }
 
 func TestSim(t *testing.T) {
+	loadFineSites(*fFine)
 	switch *fMode {
 	case "":
 		t.Skip("driven by /verif/check")
@@ -553,12 +555,19 @@ func runEngine(t *testing.T, eng *engine) {
 				}
 				// continuous determinism re-check on a sample of runs
 				if out.Runs%64 == 1 {
-					again := eng.run(t, in, false)
+					again := eng.run(t, in, true)
 					defer again.Release()
 					out.DetChecks++
 					if again.Digest != res.Digest {
 						// reported by the driver: exit 2 unless an exactly reproducible violation is found
 						out.DetMismatch++
+						if *fReplays != "" && out.DetMismatch <= 3 {
+							a, b := eng.run(t, in, true), eng.run(t, in, true)
+							writeJSON(fmt.Sprintf("%s/nondet-%s-w%d-%d.json", *fReplays, prop, *fWorker, out.Runs),
+								map[string]any{"input": in, "digest_first": res.Digest, "digest_second": again.Digest, "trace_second": again.Lines, "trace_a": a.Lines, "trace_b": b.Lines, "digest_a": a.Digest, "digest_b": b.Digest})
+							a.Release()
+							b.Release()
+						}
 					}
 				}
 			} else {
